@@ -84,6 +84,7 @@ for _pid, _p in PROPS.items():
 for _pid, _fams in {"C01": ["HKARITH", "HKROUND", "HKPACK"], "C02": ["HKROUND", "HKARITH"], "C03": ["HKARITH"], "C04": ["HKPACK"], "C09": ["HKPACK"],
                     "C10": ["HKPACK"], "C11": ["HKPACK"], "C13": ["HKPACK"], "C15": ["HKARITH", "HKROUND", "HKPACK"]}.items():
     PROPS[_pid]["helper_families"] = _fams
+for _pid in PROPS:
     PROPS[_pid]["static_modules"] = PROPS[_pid]["static_modules"] + ["DecProofs.Static.Translated"]
 
 # secondary build configuration of C02 (thorough tier): the tininess-after-rounding cargo feature
